@@ -476,7 +476,7 @@ def _len_test(test: ast.expr, subject: str, n: int) -> Optional[bool]:
 
 
 def _single_instance_gate_by_interpretation(ctx, fr: ClassInfo, gsi: FuncInfo):
-    """get_single_instance interpreted (dznverif.scenario, E6) on every result shape that matters: no item, one item of each
+    """get_single_instance interpreted (dznverif.scenario, E7) on every result shape that matters: no item, one item of each
     declaration kind, two items (same kind / different kinds), three items - without a hint and with each kind as hint.  The
     method looks at its items only through len / indexing / isinstance, so these shapes stand for all results.  None when
     the code cannot be interpreted (the guard-shape rule decides then)."""
